@@ -1375,10 +1375,130 @@ type tixTableWriter struct {
 
 func (t *tixTableWriter) Close() error {
 	err := t.BufioWriter.Close()
+	if err == nil && tixFail.hit(t.name) {
+		// the environment's fault: the table file of this flush cannot be completed (disk full, i/o error at close)
+		return fmt.Errorf("injected: no space left on device (%s)", filepath.Base(filepath.Dir(t.name)))
+	}
 	if err == nil {
 		tixWin.fire(t.name)
 	}
 	return err
+}
+
+// tixFail: the armed flush fault (at most one): the next table file closed below root/<store>/<family> fails
+type tixFailSeam struct {
+	mu     sync.Mutex
+	root   string
+	store  string // "meta" / "index" store directory name part
+	family string
+	fired  bool
+}
+
+var tixFail tixFailSeam
+
+func (f *tixFailSeam) hit(fileName string) bool {
+	f.mu.Lock()
+	defer f.mu.Unlock()
+	if f.family == "" || f.fired || !strings.HasPrefix(fileName, f.root+string(filepath.Separator)) {
+		return false
+	}
+	famDir := filepath.Dir(fileName)
+	if filepath.Base(famDir) != f.family || !strings.Contains(filepath.Dir(famDir), f.store) {
+		return false
+	}
+	f.fired = true
+	return true
+}
+
+// flushFail runs IndexDB().Flush() (kind "index") or MetaDB().Flush() (kind "meta") with the close of the table file of
+// `family` failing.  The event names the stores of the model whose flush had committed before the failing one (the
+// order of the code: metric, forward, inverted, series / ns, metric, schema, tv).
+func (r *tixRun) flushFail(kind, family string) bool {
+	tixInstallWindowSeam()
+	tixFail.mu.Lock()
+	tixFail.root, tixFail.family, tixFail.fired = r.dir, family, false
+	tixFail.store = map[string]string{"index": "index", "meta": "meta"}[kind]
+	tixFail.mu.Unlock()
+	var err error
+	if kind == "index" {
+		err = r.shard.IndexDB().Flush()
+	} else {
+		err = r.db.MetaDB().Flush()
+	}
+	tixFail.mu.Lock()
+	fired := tixFail.fired
+	tixFail.family = ""
+	tixFail.mu.Unlock()
+	if !fired {
+		// nothing of that family was pending: the flush had no table to write there; what happened is an ordinary flush
+		if err != nil {
+			r.unresolved("%s flush (no fault fired): %v", kind, err)
+			return false
+		}
+		if kind == "index" {
+			r.emit("FlushIdx", trace.F{})
+		} else {
+			r.emit("FlushMeta", trace.F{})
+		}
+		return true
+	}
+	if err == nil {
+		r.emit("Error", trace.F{"op": "Flush", "err": "the flush reported success although the table file of " + family + " could not be completed"})
+		r.ok = false
+		return false
+	}
+	r.qstats["flush-fault:"+kind+":"+family]++
+	if kind == "index" {
+		order := []string{"metric", "forward", "inverted", "series"}
+		done := []string{}
+		for _, f := range order {
+			if f == family {
+				break
+			}
+			if f != "series" {
+				done = append(done, f)
+			}
+		}
+		r.emit("FlushIdxFail", trace.F{"failed": family, "done": done})
+	} else {
+		r.emit("FlushMetaFail", trace.F{"failed": family, "tvdone": false})
+	}
+	return true
+}
+
+// flushfail: one universe whose flushes fail at the completion of the table file of one family (the environment's
+// fault), with questions right after the failure, new series beside the generation that is still waiting, the retry,
+// further cycles, compaction and a reopen.  A failed flush loses nothing: what it did not persist is still answered
+// from the immutable generation, and the retry persists it.
+func (r *tixRun) flushfail(variant, qn int) {
+	rng := r.rng
+	u := newTixUniverse(rng, 2+rng.Intn(2), 3+rng.Intn(4), rng.Intn(2) == 0)
+	if !r.begin("flushfail", u) {
+		return
+	}
+	defer r.end()
+	missP := []int{10, 30}[rng.Intn(2)]
+	w := func() bool { return r.writeSome(3+rng.Intn(5), missP) }
+	ask := func() bool {
+		if r.ok {
+			r.queries(qn, 2)
+		}
+		return r.ok
+	}
+	idxFam := []string{"inverted", "forward", "metric", "series"}[variant%4]
+	_ = w() && ask() &&
+		r.step("PrepMeta") && r.step("PrepIdx") && ask() &&
+		r.flushFail("index", idxFam) && ask() &&
+		w() && ask() &&
+		r.flushFail("meta", "tv") && ask() &&
+		r.step("FlushMeta") && r.step("FlushIdx") && ask() && // the retries
+		r.step("PrepMeta") && r.step("FlushMeta") && r.step("PrepIdx") && r.step("FlushIdx") && ask() &&
+		w() && r.step("PrepIdx") && r.flushFail("index", []string{"inverted", "forward", "metric", "series"}[(variant+1)%4]) && ask() &&
+		r.step("FlushIdx") && ask() &&
+		r.step("CompactIdx") && ask() &&
+		r.step("CompactMeta") && ask() &&
+		r.step("Reopen") && ask() &&
+		w() && ask()
 }
 
 // tixWin: the armed window (at most one; the callback runs on the goroutine that closed the table file)
@@ -1750,6 +1870,7 @@ func tagidxMain(args []string) int {
 	bign := fs.Int("big-n", 3000, "series per big universe")
 	bigq := fs.Int("big-q", 3, "queries per batch of a big universe")
 	nfind := fs.Int("findings", 1, "universes per recorded finding")
+	nff := fs.Int("flushfail", 0, "universes whose flushes fail at the completion of one family's table file (fault injection), then are retried")
 	nwin := fs.Int("window", 0, "universes whose flushes are entered (questions / writes inside the commit window of a flush)")
 	enumEvery := fs.Int("enum-every", 0, "exhaustive small universe: run every n-th series set (0 = none, 1 = all 256)")
 	enumD2 := fs.Int("enum-depth2", 30, "depth-2 conditions per enumerated universe")
@@ -1792,6 +1913,9 @@ func tagidxMain(args []string) int {
 	}
 	for i := 0; i < *nwin; i++ {
 		r.window(i+int(*seed), *qn)
+	}
+	for i := 0; i < *nff; i++ {
+		r.flushfail(i+int(*seed), *qn)
 	}
 	if *enumEvery > 0 {
 		sum.Extra["enum_universes"] = r.enum(*enumEvery, int(*seed), *enumD2, *enumTriples)
